@@ -1,5 +1,5 @@
 (* CorrC15.v — correspondence checker for C15 (series names and storage keys). *)
-From Pyro Require Export Model.Base Model.Key Corr.Verdict.
+From Pyro Require Export Model.Base Model.Key Model.Dimension Model.Labels Corr.Verdict.
 Open Scope string_scope.
 
 (* a structured name: name part and (key, value) parts as written (untrimmed) *)
@@ -18,6 +18,19 @@ Record tkobs := {
   tk_dict : option bytes       (* Go: FromTreeToDictKey(tk_key), None = panic *)
 }.
 
+(* the name used through the real storage: one upload of `so_count` samples under ParseKey(name), then the
+   label index is read back, the data is fetched under the name and under its re-parsed canonical text, and a
+   retention pass (DeleteDataBefore well after the upload) runs *)
+Record sobs := {
+  so_count : N;
+  so_keys : list bytes;                    (* Storage.GetKeys *)
+  so_vals : list (bytes * list bytes);     (* Storage.GetValues(k) for every listed k and for __name__ *)
+  so_hvals : list (bytes * list bytes);    (* GET /label-values?label=k *)
+  so_get : N;                              (* samples Get(ParseKey(name)) returns *)
+  so_reget : N;                            (* samples Get(ParseKey(Normalized())) returns *)
+  so_left : N                              (* samples Get returns after the retention pass *)
+}.
+
 Record case := {
   c_in : runes;                        (* []rune(name) *)
   c_labels : list (bytes * bytes);     (* Go: the labels map, sorted by Go string order *)
@@ -30,7 +43,8 @@ Record case := {
   c_reapp : bytes;
   c_tks : list tkobs;
   c_struct : option (runes * labels);  (* when c_in was rendered from a structure *)
-  c_vars : list variant
+  c_vars : list variant;
+  c_store : option sobs
 }.
 
 Definition beq (a b : bytes) : bool := list_eqb N.eqb a b.
@@ -89,6 +103,34 @@ Definition check_tk (c : case) (m : labels) (sig : bool) (t : tkobs) : list verd
     corr (obeq (outf8 (from_tree_to_main_key (tree_key m (tk_depth t) (tk_unix t)))) (tk_main t)) "from_tree_to_main_key model differs";
     corr (obeq (outf8 (from_tree_to_dict_key (tree_key m (tk_depth t) (tk_unix t)))) (tk_dict t)) "from_tree_to_dict_key model differs" ].
 
+Fixpoint bassoc (k : bytes) (l : list (bytes * list bytes)) : option (list bytes) :=
+  match l with
+  | [] => None
+  | (k', v) :: l' => if beq k k' then Some v else bassoc k l'
+  end.
+Definition bmem (k : bytes) (l : list bytes) : bool := existsb (beq k) l.
+Definition listed (keys : list bytes) (vals : list (bytes * list bytes)) (kv : bytes * bytes) : bool :=
+  bmem (fst kv) keys && match bassoc (fst kv) vals with Some vs => bmem (snd kv) vs | None => false end.
+Definition sset (l : list bytes) : list bytes := fold_left (fun d k => d_insert k d) l [].
+Definition sset_eqb (a b : list bytes) : bool := list_eqb beq (sset a) (sset b).
+
+(* "data written under a name is found again when the name is re-read from the label index":
+   every label of the name - the application name and the tag values, empty ones included - is listed verbatim,
+   the data is found under the name and under its canonical text, and the retention pass, which walks the
+   label index, reaches the series *)
+Definition check_store (c : case) (m : labels) (sig : bool) (o : sobs) : list verdict :=
+  let mstore := fold_left (fun s kv => labels_put (utf8 (fst kv)) (utf8 (snd kv)) s) m [] in
+  [ spec (forallb (listed (so_keys o) (so_vals o)) (c_labels c))
+      "a label of the name (application name or tag value, possibly empty) is not re-read verbatim from the label index";
+    spec (forallb (listed (so_keys o) (so_hvals o)) (c_labels c))
+      "a label of the name is not listed verbatim by GET /label-values";
+    spec_or_known sig (N.eqb (so_get o) (so_count o)) "data written under the name is not found under the name";
+    spec_or_known sig (N.eqb (so_reget o) (so_count o)) "data written under the name is not found under its canonical text";
+    spec_or_known sig (N.eqb (so_left o) 0) "a retention pass over everything did not reach the series through the label index";
+    corr (sset_eqb (get_keys mstore) (so_keys o)) "Labels model: get_keys differs from GetKeys";
+    corr (forallb (fun kv => sset_eqb (get_values (fst kv) mstore) (snd kv)) (so_vals o)) "Labels model: get_values differs from GetValues";
+    corr (forallb (fun kv => sset_eqb (get_values (fst kv) mstore) (snd kv)) (so_hvals o)) "Labels model: get_values differs from GET /label-values" ].
+
 Definition check_case (c : case) : verdict :=
   let m := parse (c_in c) in
   let m2 := parse (normalized m) in
@@ -106,6 +148,7 @@ Definition check_case (c : case) : verdict :=
       corr (beq (utf8 (normalized m2)) (c_renorm c)) "re-parse: normalized model differs"
     ]
     ++ flat_map (check_tk c m sig) (c_tks c)
+    ++ match c_store c with Some o => check_store c m sig o | None => [] end
     ++ match c_struct c with
        | Some (n, l) =>
            corr (beq (render n l) (c_in c)) "harness rendering differs from Key.render (base)"
